@@ -12,7 +12,7 @@ builder against the model with `F = Float32`, every split, context map and histo
 SPEC side: the hypothesis `MBOK` / `Covers` of `full_metablock_roundtrip` (third module) and, through it, the general
 RFC 7932 reader.
 -/
-import BV.Lemmas.GreedyMain
+import BV.Lemmas.GreedyOpt
 import BV.Props.C01MetaBlockFull
 
 namespace BV.Props.C01Greedy
@@ -98,6 +98,113 @@ theorem greedy_metablock_roundtrip {F : Type} (ops : FOps F) (hirr : OracleOK op
     prevByte prevByte2 mb isLast dp mode cmds mbs hist dc w hR h256 hh256 h1 (by omega) h64 hIP hprev hmode hnp hnd1 hnd2
     hA hA544 hok hcl2 hlock hfa hM hcL hcI hcD
   exact ⟨mbs, bits, out, ring', e, a1, a2, a3, a4⟩
+
+open BV.Stored (writeMetaBlockInternal MbOracle) in
+/-- **greedy_wmbi_roundtrip** — `WriteMetaBlockInternal` at quality 4..9 with the greedy builder's split: the hypotheses of
+`wmbi_full_roundtrip` without any on the `MetaBlockSplit`.  For every verdict of `should_compress`, appendable / catable /
+last or not, what the call leaves in the storage is read by the general RFC reader from `(hist, dc)` to `hist ++ mb`. -/
+theorem greedy_wmbi_roundtrip {F : Type} (ops : FOps F) (hirr : OracleOK ops) (wo : WordOracle) (window : Nat) (ring : Bytes)
+    (start mask prevByte prevByte2 : Nat) (mb : Bytes) (appendable catable actualIsLast shouldCompress : Bool) (dp : DistP)
+    (mode numContexts : Nat) (scm : List Nat) (cmds : List Cmd) (hist : Bytes) (dc : List Int) (w : List Bool)
+    (hR : RingHolds ring mask start mb) (h256 : ∀ b ∈ mb, b < 256) (hh256 : ∀ b ∈ hist, b < 256)
+    (h1 : 1 ≤ mb.length) (hsz1 : mb.length + 512 ≤ 2 ^ 24) (hsz2 : cmds.length + 1024 ≤ 2 ^ 24)
+    (h64 : start + mb.length < 2 ^ 64)
+    (hIP : inputPairCheck ring start mb.length mask = .ok ())
+    (hprev : prevByte = lastB hist ∧ prevByte2 = last2B hist) (hmode : mode < 4)
+    (hst : StaticOK numContexts scm)
+    (hnp : dp.npostfix ≤ 3) (hnd1 : dp.ndirect % 2 ^ dp.npostfix = 0) (hnd2 : dp.ndirect / 2 ^ dp.npostfix < 16)
+    (hA : dp.alphabetSize = distAlphabetSize dp.large dp.npostfix dp.ndirect) (hA544 : dp.alphabetSize ≤ 544)
+    (hok : ∀ c ∈ cmds, cmdOK dp.alphabetSize dp.npostfix dp.ndirect c = true)
+    (hcl2 : ∀ c ∈ cmds, copyLen c ≠ 0 → 2 ≤ copyLen c)
+    (hlock : lockstep wo dp.npostfix dp.ndirect window mb ⟨hist, dc, 0⟩ 0 cmds = true)
+    (hfa : faithful wo dp.npostfix dp.ndirect window mb hist ⟨hist, dc, 0⟩ cmds)
+    (hpay : replayCommands wo dp.npostfix dp.ndirect window mb dc hist cmds = some (hist ++ mb))
+    (hcat : catable = true → appendable = true) (hw : w.length < 256) :
+    ∃ mbs att r bits s'',
+      buildGreedy ops ring start mask prevByte prevByte2 mode numContexts scm cmds = .ok mbs ∧
+      storeMetaBlockFull ring start mb.length mask prevByte prevByte2 (if appendable then false else actualIsLast)
+        dp mode cmds mbs w = .ok (w ++ att) ∧
+      writeMetaBlockInternal appendable catable actualIsLast mb ⟨shouldCompress, att⟩ w = .ok r ∧
+      r.fin = w ++ bits ∧ s''.out = hist ++ mb ∧
+      (actualIsLast = true → ∀ rest f,
+        readMetaBlocksG wo window dp.large (f + 2) w.length ⟨hist, dc⟩ (bits ++ rest) = some (s'', rest)) ∧
+      (actualIsLast = false →
+        ReadsToG wo window dp.large w.length ⟨hist, dc⟩ bits false (w.length + bits.length) s'') := by
+  obtain ⟨mbs, e, hM, hcL, hcI, hcD⟩ := greedy_split_wellformed ops hirr wo window ring start mask prevByte prevByte2 mb dp mode
+    numContexts scm cmds hist dc hR h256 hh256 h64 hprev hmode hst hA544 hok hcl2 hlock hsz1 hsz2
+  obtain ⟨att, r, bits, s'', a1, a2, a3, a4, a5, a6⟩ := BV.Props.C01MetaBlockFull.wmbi_full_roundtrip wo window ring start mask
+    prevByte prevByte2 mb appendable catable actualIsLast shouldCompress dp mode cmds mbs hist dc w hR h256 hh256 h1 (by omega)
+    h64 hIP hprev hmode hnp hnd1 hnd2 hA hA544 hok hcl2 hlock hfa hpay hM hcL hcI hcD hcat hw
+  exact ⟨mbs, att, r, bits, s'', e, a1, a2, a3, a4, a5, a6⟩
+
+/-! ### `BrotliOptimizeHistograms` between the builder and the writer -/
+
+/-- **rewritten_histograms_wellformed** — the hypotheses `MBOK` + `Covers` of the writer theorem survive any rewriting of
+the histograms that keeps shape, totals `≤ 2^25`, the alphabet and every occurring symbol (`BV.Greedy.Rewritten`). -/
+theorem rewritten_histograms_wellformed (mbs mbs' : MBSplit) (A : Nat) (mode : Nat) (hist mb : Bytes) (cmds : List Cmd)
+    (hr : Rewritten mbs mbs' A) (hM : MBOK mbs A)
+    (hcL : Covers mbs.litHistos (effMap mbs.litCmap mbs.litCmapSize mbs.lit.numTypes 64) 64
+      (remTypes mbs.lit 0 (mbs.lit.lengths.getD 0 0)) (litSymsOf mode hist mb 0 cmds))
+    (hcI : Covers mbs.cmdHistos (trivialMap mbs.cmd.numTypes 1) 1
+      (remTypes mbs.cmd 0 (mbs.cmd.lengths.getD 0 0)) (cmds.map fun c => (0, c.cmdPrefix)))
+    (hcD : Covers mbs.distHistos (effMap mbs.distCmap mbs.distCmapSize mbs.dist.numTypes 4) 4
+      (remTypes mbs.dist 0 (mbs.dist.lengths.getD 0 0)) (distSymsOf cmds)) :
+    MBOK mbs' A ∧
+    Covers mbs'.litHistos (effMap mbs'.litCmap mbs'.litCmapSize mbs'.lit.numTypes 64) 64
+      (remTypes mbs'.lit 0 (mbs'.lit.lengths.getD 0 0)) (litSymsOf mode hist mb 0 cmds) ∧
+    Covers mbs'.cmdHistos (trivialMap mbs'.cmd.numTypes 1) 1
+      (remTypes mbs'.cmd 0 (mbs'.cmd.lengths.getD 0 0)) (cmds.map fun c => (0, c.cmdPrefix)) ∧
+    Covers mbs'.distHistos (effMap mbs'.distCmap mbs'.distCmapSize mbs'.dist.numTypes 4) 4
+      (remTypes mbs'.dist 0 (mbs'.dist.lengths.getD 0 0)) (distSymsOf cmds) :=
+  BV.Greedy.rewritten_histograms_wellformed mbs mbs' A mode hist mb cmds hr hM hcL hcI hcD
+
+/-- **optimize_histograms_keeps_wellformed** — `BrotliOptimizeHistograms(num_distance_codes, mb)` (model
+`optimizeHistograms`: `BrotliOptimizeHuffmanCountsForRle` of C17 over every literal, command and distance histogram) on a
+`MetaBlockSplit` that is well formed with exact histogram shapes and totals `≤ 2^24` (`HSharp`, proved of the greedy builder's
+result): WHENEVER it returns, the result differs from the input only in the histograms, and they are `HistosOK` again —
+same lengths, every total grew by at most `2 · length + 1` (so `≤ 2^25`), nothing at or above `num_distance_codes ≤`
+alphabet size was touched — and still count every symbol they counted (C17 `optimize_keep`). -/
+theorem optimize_histograms_keeps_wellformed (mbs mbs' : MBSplit) (A nd : Nat) (hnd : nd ≤ A) (hA : A ≤ 544) (hM : MBOK mbs A)
+    (hS : HSharp mbs) (h : optimizeHistograms nd mbs = .ok mbs') : Rewritten mbs mbs' A :=
+  optimizeHistograms_rewritten mbs mbs' A nd hnd hA hM hS h
+
+/-- **greedy_optimized_roundtrip** — the quality 4..9 pipeline of `WriteMetaBlockInternal` as `encode.rs` runs it:
+`BrotliBuildMetaBlockGreedy`, then `BrotliOptimizeHistograms(min(alphabet_size, 544), mb)`, then `BrotliStoreMetaBlock`.  Under
+the hypotheses of `greedy_metablock_roundtrip`: the builder does not panic, and for whatever `BrotliOptimizeHistograms`
+returns (its totality is not proved here: `_partial` in that respect only) the writer does not panic and the general RFC 7932
+reader reads the written bits back to what `replayCommands` produces from the commands. -/
+theorem greedy_optimized_roundtrip_partial {F : Type} (ops : FOps F) (hirr : OracleOK ops) (wo : WordOracle) (window : Nat)
+    (ring : Bytes) (start mask prevByte prevByte2 : Nat) (mb : Bytes) (isLast : Bool) (dp : DistP)
+    (mode numContexts : Nat) (scm : List Nat) (cmds : List Cmd) (hist : Bytes) (dc : List Int) (w : List Bool)
+    (hR : RingHolds ring mask start mb) (h256 : ∀ b ∈ mb, b < 256) (hh256 : ∀ b ∈ hist, b < 256)
+    (h1 : 1 ≤ mb.length) (hsz1 : mb.length + 512 ≤ 2 ^ 24) (hsz2 : cmds.length + 1024 ≤ 2 ^ 24)
+    (h64 : start + mb.length < 2 ^ 64)
+    (hIP : inputPairCheck ring start mb.length mask = .ok ())
+    (hprev : prevByte = lastB hist ∧ prevByte2 = last2B hist) (hmode : mode < 4)
+    (hst : StaticOK numContexts scm)
+    (hnp : dp.npostfix ≤ 3) (hnd1 : dp.ndirect % 2 ^ dp.npostfix = 0) (hnd2 : dp.ndirect / 2 ^ dp.npostfix < 16)
+    (hA : dp.alphabetSize = distAlphabetSize dp.large dp.npostfix dp.ndirect) (hA544 : dp.alphabetSize ≤ 544)
+    (hok : ∀ c ∈ cmds, cmdOK dp.alphabetSize dp.npostfix dp.ndirect c = true)
+    (hcl2 : ∀ c ∈ cmds, copyLen c ≠ 0 → 2 ≤ copyLen c)
+    (hlock : lockstep wo dp.npostfix dp.ndirect window mb ⟨hist, dc, 0⟩ 0 cmds = true)
+    (hfa : faithful wo dp.npostfix dp.ndirect window mb hist ⟨hist, dc, 0⟩ cmds) :
+    ∃ mbs, buildGreedy ops ring start mask prevByte prevByte2 mode numContexts scm cmds = .ok mbs ∧
+      ∀ mbs', optimizeHistograms dp.alphabetSize mbs = .ok mbs' →
+        ∃ bits out ring',
+          storeMetaBlockFull ring start mb.length mask prevByte prevByte2 isLast dp mode cmds mbs' w = .ok (w ++ bits) ∧
+          replayCommands wo dp.npostfix dp.ndirect window mb dc hist cmds = some out ∧
+          (∀ rest, readMetaBlockFullG wo window dp.large w.length ⟨hist, dc⟩ (bits ++ rest)
+            = some (⟨out, ring'⟩, isLast, (w ++ bits).length, rest)) ∧
+          (replayCommands wo dp.npostfix dp.ndirect window mb dc hist cmds = some (hist ++ mb) → out = hist ++ mb) := by
+  obtain ⟨mbs, e, hM, hcL, hcI, hcD, hS⟩ := buildGreedy_ok' ops hirr ring start mask prevByte prevByte2 mode numContexts scm cmds mb
+    hist dp.alphabetSize dp.npostfix dp.ndirect hR h256 hh256 (by unfold two64; simpa using h64) hprev hmode hst hA544 hok hcl2
+    (lockstep_le wo dp.npostfix dp.ndirect window mb cmds _ 0 hlock).2 hsz1 hsz2
+  refine ⟨mbs, e, fun mbs' ho => ?_⟩
+  have hr := optimizeHistograms_rewritten mbs mbs' dp.alphabetSize dp.alphabetSize (Nat.le_refl _) hA544 hM hS ho
+  obtain ⟨hM', hcL', hcI', hcD'⟩ := BV.Greedy.rewritten_histograms_wellformed mbs mbs' dp.alphabetSize mode hist mb cmds hr hM hcL
+    hcI hcD
+  exact BV.Props.C01MetaBlockFull.full_metablock_roundtrip wo window ring start mask prevByte prevByte2 mb isLast dp mode cmds
+    mbs' hist dc w hR h256 hh256 h1 (by omega) h64 hIP hprev hmode hnp hnd1 hnd2 hA hA544 hok hcl2 hlock hfa hM' hcL' hcI' hcD'
 
 /-! ### non-vacuity -/
 
